@@ -461,6 +461,12 @@ pub fn witness_shape(ctx: &TreeCtx, m: &ProofM) -> &'static str {
         .iter()
         .enumerate()
         .any(|(i, (p, l))| !used[i] && !ctx.claim_true(*p, &l.hash));
+    // do the entries verification uses hash to the committed root under the reference evaluation?
+    let entries: Vec<(u64, Bytes)> = m.inner_leaves.iter().map(|(p, l)| (*p, l.hash.clone())).collect();
+    let items: Vec<Bytes> = m.inner_proof_items.iter().map(|i| i.hash.clone()).collect();
+    if refs::mmr_eval(m.inner_proof_size, &entries, &items).as_deref() != Some(&ctx.root[..]) {
+        return "the listed entries do not hash to the committed root under the reference MMR evaluation (verification defect)";
+    }
     if unused_false {
         return "entry with a duplicated position is skipped by verification but still listed";
     }
@@ -567,6 +573,17 @@ pub fn judge(ctx: &TreeCtx, m: &ProofM, class: &str, mon: &mut Monitor) -> Verdi
                     if vouched { "Ok" } else { "Err" }
                 ), || json!({"kind": "mkproof", "tree": ctx.to_json(), "proof": m.to_json(), "class": class, "witness_shape": shape,
                        "false_claims": false_claims.iter().map(|(p, l)| json!([p, hex::encode(l)])).collect::<Vec<_>>()}));
+        }
+        // a listed leaf must not carry an unlisted one through a multi-leaf `contains`
+        if let (Some(first), Some(f)) = (mirrored.first(), ctx.foreign.iter().find(|f| !mirrored.contains(f))) {
+            if p.contains(&[MKTreeNode::new(first.clone()), MKTreeNode::new(f.clone())]).is_ok() {
+                crate::viol::report(
+                    mon,
+                    "C09 MKProof::contains succeeds for a leaf list with an unlisted leaf after a listed one",
+                    || format!("contains([listed, 0x{}]) = Ok", hex::encode(f)),
+                    || json!({"kind": "mkproof", "tree": ctx.to_json(), "proof": m.to_json(), "class": class}),
+                );
+            }
         }
         // `contains` may only succeed for leaves the proof lists
         let mut pool: Vec<Bytes> = ctx.leaves.iter().take(24).cloned().collect();
